@@ -1120,6 +1120,39 @@ def mk_bool(op: str, values) -> tuple:
     return bool_canon(atom_poly(("bool", op, values)))
 
 
+def lower_bound(t: tuple):
+    """A constant the term is known not to go below (None when nothing is known): len(..) >= 0, factorial(..) >= 1,
+    floor division of a non-negative term by a positive constant >= 0, constants themselves."""
+    c = is_const(t)
+    if c is not None:
+        return c
+    a = single_atom(t)
+    if a is None:
+        # c * (x^2 - x) or c * (x^2 + x), c > 0, x one (integer-valued) atom: a positive multiple of a product of consecutive integers
+        try:
+            d = as_dict(t)
+            if len(d) == 2:
+                (m1, c1), (m2, c2) = list(d.items())
+                for (ma, ca), (mb, cb) in (((m1, c1), (m2, c2)), ((m2, c2), (m1, c1))):
+                    if abs(ca) == abs(cb) and ca > 0:
+                        q = _mono_quot(ma, mb)
+                        if q is not None and len(dict(mb)) == 1 and q in dict(mb) and is_const(dict(mb)[q]) == 1:
+                            return Fraction(0)
+        except Exception:
+            pass
+        return None
+    if a[0] == "call" and a[1] == "len":
+        return Fraction(0)
+    if a[0] == "call" and a[1] in ("factorial", "math.factorial"):
+        return Fraction(1)
+    if a[0] == "floordiv" and len(a) == 3:
+        d = is_const(a[2])
+        n = lower_bound(a[1])
+        if d is not None and d > 0 and n is not None and n >= 0:
+            return Fraction(0)
+    return None
+
+
 def mk_minmax(name: str, args) -> tuple:
     """max / min of terms: commutative, nested calls of the same kind flattened, duplicates dropped"""
     flat = []
@@ -1133,12 +1166,13 @@ def mk_minmax(name: str, args) -> tuple:
     for v in sorted(flat, key=_key):
         if v not in uniq:
             uniq.append(v)
-    # a length / count is never negative: max(0, len(x)) = len(x), min(0, len(x)) = 0
-    if len(uniq) == 2 and ZERO in uniq:
-        other = uniq[0] if uniq[1] == ZERO else uniq[1]
-        ao = single_atom(other)
-        if ao is not None and ao[0] == "call" and ao[1] == "len":
-            return other if name == "max" else ZERO
+    # a clamp that cannot bind: max(c, X) = X when X >= c is known (a length / count is >= 0, a factorial >= 1), min(c, X) = c then
+    if len(uniq) == 2:
+        for c_, other in ((uniq[0], uniq[1]), (uniq[1], uniq[0])):
+            cv = is_const(c_)
+            lb = lower_bound(other)
+            if cv is not None and lb is not None and lb >= cv:
+                return other if name == "max" else c_
     if len(uniq) == 1:
         return uniq[0]
     return atom_poly(("call", name, tuple(uniq)))
